@@ -212,6 +212,28 @@ def rule_discriminants(ctx):
     t = A.fn_text(ri)
     names = re.findall(r'"([ui](?:8|16|32|64|128|size))"', t)
     need(ctx, "repr:names", sorted(set(names)) == sorted(["u8", "u16", "u32", "u64", "u128", "usize", "i8", "i16", "i32", "i64", "i128", "isize"]), ctx.where(ri.file, ri.node), f"accepted repr integers are {sorted(set(names))}")
+    # every hint is looked at, and a hint that is not the integer has its `(..)` body consumed: the callback leaves early
+    # only right after it stored an integer repr (an early exit anywhere else leaves `align(2)`'s body unparsed:
+    # `#[repr(u8, align(2))]` -> "expected `,`")
+    cb = next((c for c, ps in A.find(ri.block, "Expr::Closure") if any(A.kind(p) == "Expr::MethodCall" and p["method"]["sym"] == "parse_nested_meta" for p in ps[-2:])), None)
+    if cb is None:
+        raise A.AnchorLost("impl/src/utils.rs::<ReprInt as ParseMultiple>::parse_attr_with", "`attr.parse_nested_meta(|meta| ..)` callback")
+    rets = [(r, ps) for r, ps in A.find(cb["body"], "Expr::Return")]
+    good = 0
+    for r, ps in rets:
+        blk = next((p for p in reversed(ps) if A.kind(p) == "Block"), None)
+        prev = [A.render_stmt(x) for x in (blk["stmts"] if blk else [])]
+        if blk and len(prev) >= 2 and A.wfull(prev[-2].rstrip(";"), "repr=Some(ident.clone())") is not None and A.render(r) == "return Ok(())":
+            good += 1
+    cbt = A.render(cb["body"])
+    need(
+        ctx,
+        "repr:consume-other-hints",
+        len(rets) == good == 1 and "meta.input.parse::<proc_macro2::Group>()" in cbt,
+        ctx.where(ri.file, ri.node),
+        f"the `parse_nested_meta` callback of `ReprInt` has {len(rets)} early exits ({good} right after storing the integer repr) / no longer swallows the `(..)` body of other hints: "
+        "`#[repr(u8, align(2))]` then fails with \"expected `,`\" and no `TryFrom` impl is generated, although `#[repr(align(2), u8)]` works",
+    )
     ty = A.get_fn(ctx.files, "impl/src/utils.rs", "attr::repr_int::ReprInt::ty")
     need(ctx, "repr:default", 'unwrap_or_else(||syn::Ident::new("isize",Span::call_site()))' in A.fn_text(ty), ctx.where(ty.file, ty.node), "the default representation is no longer `isize`")
     mg = A.get_fn(ctx.files, "impl/src/utils.rs", "attr::repr_int::<ReprInt as ParseMultiple>::merge_attrs")
@@ -403,6 +425,51 @@ def rule_delegation(ctx):
                 ident_refs.add(depth)
             else:
                 fwd_refs.add(depth)
+    # AS-SIB: the `&mut` impls are the `&` impls with `mut` / AsMut / as_mut substituted: same generics, same bounds
+    # (`?Sized` included: an unsized field type must still hit the identity impl), same receiver depth
+    def _impl_sig(it):
+        gen = ",".join(sorted(A.render(p) if A.kind(p) else str(p) for p in it["generics"]["params"]))
+        wc = it["generics"].get("where_clause")
+        preds = sorted(A.tokens_compact([t]) if False else _render_pred(pr) for pr in (wc["predicates"] if wc else []))
+        body = " ".join(A.fn_text(f_) for f_ in A.functions(lib) if f_.impl is it)
+        assoc = sorted(f"{ii['ident']['sym']}={_render_ty(ii['ty'])}" for ii in it["items"] if A.kind(ii) == "ImplItem::Type")
+        return {"self": _render_ty(it["self_ty"]), "generics": gen, "where": preds, "assoc": assoc, "body": body}
+
+    def _render_ty(t):
+        sp = A.span_of(t)
+        return re.sub(r"\s+", "", lib.text(sp[0], sp[1])) if sp else "?"
+
+    def _render_pred(pr):
+        sp = A.span_of(pr)
+        return re.sub(r"\s+", "", lib.text(sp[0], sp[1])) if sp else "?"
+
+    def _unmut(d):
+        def u(x):
+            return x.replace("'amut", "'a").replace("AsMut", "AsRef").replace("as_mut", "as_ref") if isinstance(x, str) else [u(y) for y in x]
+
+        return {k: u(v) for k, v in d.items()}
+
+    sigs = []
+    for it, mods, cfgs in A.iter_items(lib.ast["items"]):
+        if A.kind(it) == "Item::Impl" and it.get("trait_") and A.path_last(it["trait_"][1]) == "ExtractRef":
+            sigs.append(_impl_sig(it))
+    shared = [x for x in sigs if "mut" not in x["self"]]
+    muts = [x for x in sigs if "mut" in x["self"]]
+    ctx.instance("as:sibling-impls", sample={"shared": len(shared), "mut": len(muts)})
+    if len(shared) != 2 or len(muts) != 2:
+        raise A.AnchorLost("src/as.rs::ExtractRef impls", f"{len(shared)} shared / {len(muts)} mutable impls")
+    for mi in muts:
+        um = _unmut(mi)
+        twin = next((x for x in shared if x["self"] == um["self"]), None)
+        if twin is None or twin != um:
+            diff = [k for k in um if twin is None or twin[k] != um[k]]
+            ctx.report(
+                f"as:sibling:{mi['self']}",
+                ctx.where(lib, lib.ast["items"][0]) if False else "src/as.rs",
+                f"the `ExtractRef` impl for `{mi['self']}` differs from its shared-reference twin in {diff}: `{ {k: mi[k] for k in diff} }` vs `{ {k: (twin or {}).get(k) for k in diff} }`; "
+                "AsMut then specialises differently from AsRef (e.g. without `T: ?Sized` an unsized field type no longer hits the identity impl and its own `AsMut<Self>` is called instead of returning the field)",
+                {},
+            )
     m = re.search(r"\((&+)conv\)\.__extract_ref\(#field_ref\)", spec[0]) if spec else None
     call_refs = len(m.group(1)) if m else -1
     ctx.instance("as:autoref-levels", sample={"identity_impl_refs": sorted(ident_refs), "forwarding_impl_refs": sorted(fwd_refs), "call_refs": call_refs})
